@@ -5,7 +5,7 @@ def plan(tier):
                 "cfg": "SuffixIndexMC_C05.cfg" if q else "SuffixIndexMC_C05_thorough.cfg",
                 "timeout": 1500, "args": ["-coverage", "1"]}],
         "families": [{"fam": "fm", "trace": "SuffixIndexTraceFm", "nfiles": 2, "timeout": 3000}],
-        "required_obligations": ["exhaustive_small", "text_len_1", "text_len_2", "occ_rate_1", "clone_fmindex_both_continue", "clone_from_fmindex_other_text_both_continue", "searches_repeated_in_reverse_order", "empty_pattern", "pattern_iterator_inexact_size_hint", "serde_roundtrip_fmindex", "serde_roundtrip_sampled_sa", "alphabet_max_symbol_sweep_around_dollar", "complete_by_construction", "partial_by_construction",
+        "required_obligations": ["exhaustive_small", "same_size_same_max_different_alphabets_in_one_process", "fm_over_more_than_65535_reads", "text_len_1", "text_len_2", "occ_rate_1", "clone_fmindex_both_continue", "clone_from_fmindex_other_text_both_continue", "searches_repeated_in_reverse_order", "empty_pattern", "pattern_iterator_inexact_size_hint", "serde_roundtrip_fmindex", "serde_roundtrip_sampled_sa", "alphabet_max_symbol_sweep_around_dollar", "complete_by_construction", "partial_by_construction",
                                  "absent_by_construction", "longer_than_text", "whole_text_pattern", "multi_sentinel",
                                  "sampled_sa", "sentinel_not_dollar_sampled_sa", "bwt_run_ge_256_occ_rate_gt_256", "text_longer_than_2p24_sampled_sa", "occ_rate_gt64", "own_borrowed", "own_owned", "own_arc"],
         "rule": "patterns are handed to backward_search through 7 kinds of double-ended iterators (plain, filter, "
